@@ -56,6 +56,14 @@ func die(f string, a ...any) {
 	os.Exit(2)
 }
 
+// testHang: self-test of the orchestrator's liveness watchdog (VERIF_TEST_HANG_RUN=<run index>).
+func testHang(run uint64) {
+	if v := os.Getenv("VERIF_TEST_HANG_RUN"); v != "" && v == fmt.Sprint(run) {
+		for {
+		}
+	}
+}
+
 func main() {
 	out = bufio.NewWriterSize(os.Stdout, 1<<16)
 	if len(os.Args) < 2 {
@@ -104,6 +112,7 @@ func main() {
 			i := *from + k**step
 			c := props.NewCase(p, *seed, i, *tier)
 			emit(line{T: "begin", Run: i})
+			testHang(i)
 			res, infra := props.Execute(p, c, env)
 			if infra != nil {
 				emit(line{T: "infra", Run: i, Msg: infra.Error(), Case: c})
@@ -137,6 +146,7 @@ func main() {
 		c := readCase(*file)
 		p := mustProp(c.Prop)
 		env.Record = env.Record || cmd == "exec"
+		testHang(c.Run)
 		res, infra := props.Execute(p, c, env)
 		if infra != nil {
 			emit(line{T: "infra", Msg: infra.Error()})
